@@ -162,6 +162,11 @@ def ref_gcp(x, g, lb, ub, B):
         told = tb
         crossed += 1
     xcp = x + z
+    # variables whose breakpoint was crossed sit exactly on that bound (x + (bound - x) is only equal to it up to rounding)
+    for i in range(n):
+        if np.isfinite(t[i]) and 0 < t[i] <= told and d[i] == 0.0 and t[i] > 0:
+            xcp[i] = ub[i] if g[i] < 0 else lb[i]
+    xcp = np.minimum(np.maximum(xcp, lb), ub)
     fin = np.isfinite(t)
     scale = max(tstar, 1e-300)
     near = fin & (np.abs(t - tstar) <= 1e-10 * max(scale, 1.0) + 1e-10 * np.where(fin, np.abs(t), 0))
